@@ -1,9 +1,23 @@
+/-
+  Oracle.C20 — classifies every entry of the REGENERATED table Generated.Globals.sharedWriters with
+  Spec.Isolation (the lists the theorem `shared_writers_accounted_partial` is about).
+  No input; one line per entry:   allowed|recordedDefect|unlisted <variable> <writer>
+-/
 import Oracle.Proto
+import GoluaVerif.Spec.Isolation
+import GoluaVerif.Generated.Globals
 namespace Oracle.C20
+open GoluaVerif.Spec.Isolation GoluaVerif.Generated
 
-/-- placeholder: the oracle driver for C20 is not built yet -/
 def main (_args : List String) : IO UInt32 := do
-  IO.eprintln "oracle mode c20: not built"
-  return 2
+  let stdout ← IO.getStdout
+  for w in Globals.sharedWriters do
+    let v := match classify w with
+      | .allowed => "allowed"
+      | .recordedDefect => "recordedDefect"
+      | .unlisted => "unlisted"
+    stdout.putStrLn s!"{v} {w.1} {w.2}"
+  stdout.flush
+  return 0
 
 end Oracle.C20
